@@ -3,9 +3,9 @@
 // property C16, violation key cc:ReadVarIntegerSlow:stale-after-short-refill
 // ReadVarIntegerSlow<ReadVarU64>: load of 1 byte(s) at buffer offset 9 lies outside [data, buffer_end_ptr_): stale bytes are decoded after FillBuffer() delivered fewer bytes than the decoder consumes; call chain ReadVarIntegerFastFromArray < ReadVarIntegerSlow < ReadVarInt64 < h_ReadVarU64
 // spec: throw yardl::binary::EndOfStreamException
-// native observation (release build): ret 4160 / drain 000000000000000000000000000011100000000000007265742034
+// native observation (release build): ret 0 / drain 000000000000000000000000000000000000000000000000000000
 // debug build, same call twice: exit -6 (assertion)
-#define BAKED_ARGS {"R", "12", "c0a080808080808080", "ReadVarU64", "drain"}
+#define BAKED_ARGS {"R", "32", "808080808080808080", "ReadVarU64", "drain"}
 // Native replay driver for coded_stream.h (real, unmodified header; public API only).
 //
 //   replay_kernels R <N> <hex stream bytes> <cmd>...     reader script
